@@ -32,6 +32,15 @@ def run(ctx):
             rng.shuffle(ex)
             opts = {k_: v_ for k_, v_ in opts.items() if k_ in ('dialect', 'tag')}
             ctx.bump('over_100_distinct')
+        if it % 25 == 11:
+            # overlapping expressions: lines with more than 99 runs of character classes fall back to ^.{n}$, which also
+            # matches the other examples of that length (ruler lines with an expression of their own)
+            w = rng.choice([119, 121])
+            row = lambda k_: (','.join(str((j_ * k_) % 10) for j_ in range(70)))[:w]
+            ex = [row(1), row(3), row(7)][:rng.choice([2, 3])] + ['=' * w] * rng.choice([1, 2]) + ['-' * w] + ['short', 'x1']
+            rng.shuffle(ex)
+            opts = {k_: v_ for k_, v_ in opts.items() if k_ in ('dialect', 'tag')}
+            ctx.bump('overlapping_expressions')
         form = rng.choice(['list', 'list', 'dict', 'bytes-list', 'bytes-dict', 'extract-list'])
         if form in ('dict', 'bytes-dict'):
             cnt = {}
@@ -55,6 +64,11 @@ def run(ctx):
             case['size'] = spec
             case['seed'] = kw['seed']
             ctx.bump('sampling_sizes')
+        if it % 5 == 1:
+            # progress output switched on (it goes to stdout): the figures are the same
+            kw = dict(kw, verbose=rng.choice([1, 2, 3]))
+            case['verbose'] = kw['verbose']
+            ctx.bump('verbose')
         try:
             with contextlib.redirect_stdout(io.StringIO()):
                 if form.startswith('bytes'):
